@@ -93,25 +93,47 @@ def c01_2(ctx: Ctx) -> RuleResult:
 
 
 # --------------------------------------------------------------------- C01.3
-def _loop_index_info(ctx: Ctx, f: Func, idx: Term):
-    """idx = each(np.where(MAP == enumidx(LIST))[0]) -> (MAP, LIST, loopid) or None."""
+def _loop_index_info(ctx: Ctx, f: Func, idx: Term, stmt: ast.AST | None = None):
+    """The function index ranges over the positions where `MAP == K` holds, K a position of the estimator list:
+    -> (MAP, K) or None.  Spellings: `for i in np.where(MAP == k)[0]` / flatnonzero, or
+    `for i, selected in enumerate(MAP == k)` under `if selected`."""
     n = idx
-    if n[0] != "iter":
-        return None
-    src = n[1]
-    # np.where(mask)[0]  /  np.flatnonzero(mask)
     mask = None
-    if src[0] == "sub" and src[2] == ("const", 0) and src[1][0] == "call" and src[1][1] in (("global", "numpy.where"), ("global", "numpy.nonzero")) and len(src[1][2]) == 1:
-        mask = src[1][2][0]
-    elif src[0] == "call" and src[1] == ("global", "numpy.flatnonzero") and src[2]:
-        mask = src[2][0]
+    if n[0] == "iter":
+        src = n[1]
+        # np.where(mask)[0]  /  np.flatnonzero(mask)
+        if src[0] == "sub" and src[2] == ("const", 0) and src[1][0] == "call" and src[1][1] in (("global", "numpy.where"), ("global", "numpy.nonzero")) and len(src[1][2]) == 1:
+            mask = src[1][2][0]
+        elif src[0] == "call" and src[1] == ("global", "numpy.flatnonzero") and src[2]:
+            mask = src[2][0]
+    elif n[0] == "enumidx" and stmt is not None:
+        # positions of an enumerated mask, the element tested in the path condition
+        from ..util import bool_nnf, path_condition
+
+        elem = ("iter", n[1], n[2])
+        for t_, pol in path_condition(ctx, f, stmt):
+            g_ = bool_nnf(t_ if pol else ("unary", "not", t_))
+            for it in (g_[1] if g_[0] == "and" else [g_]):
+                if it[0] == "lit" and it[2] and it[1] == elem:
+                    mask = n[1]
     if mask is None:
         return None
     for s in subterms(mask) if mask[0] != "cmp" else [mask]:
         if s[0] == "cmp" and s[1] == "==":
             for a, b in ((s[2], s[3]), (s[3], s[2])):
-                if b[0] == "enumidx":
-                    return a, b[1], b[2]
+                if b[0] == "enumidx" or (b[0] == "iter" and b[1][0] == "call" and b[1][1] == ("builtin", "range")):
+                    return a, b
+    return None
+
+
+def _element_at(recv: Term, k: Term):
+    """recv is element `k` of a list L: `for k, e in enumerate(L)` (recv = each(L), k = index(L)) or `L[k]` -> L"""
+    if recv[0] == "iter" and k[0] == "enumidx" and recv[1] == k[1] and recv[2] == k[2]:
+        return recv[1]
+    if recv[0] == "sub" and recv[2] == k:
+        # k ranges over range(len(L))
+        if k[0] == "iter" and k[1][0] == "call" and k[1][1] == ("builtin", "range") and len(k[1][2]) == 1 and k[1][2][0] == ("call", ("builtin", "len"), (recv[1],), ()):
+            return recv[1]
     return None
 
 
@@ -130,15 +152,19 @@ def c01_3(ctx: Ctx) -> RuleResult:
         if vals[0] == "sub":
             idxs = vals[2][1] if vals[2][0] == "tuple" else (vals[2],)
             col = idxs[-1]
-        info = _loop_index_info(ctx, f, col) if col is not None else None
+        st_c = c
+        while parent(st_c) is not None and not isinstance(st_c, ast.stmt):
+            st_c = parent(st_c)
+        info = _loop_index_info(ctx, f, col, st_c) if col is not None else None
         ok = info is not None
         res.add(f, c, "the values argument is column `idx` of the realization x function matrix, idx ranging over the functions mapped to this estimator", ok,
                 "" if ok else f"values argument is `{show(vals, 80)}`", construct=f"{f.name}: values column")
         if not ok:
             continue
-        emap, elist, loopid = info
-        # receiver is the estimator paired with the index by the same enumerate
-        ok = recv[0] == "iter" and recv[1] == elist and recv[2] == loopid
+        emap, kpos = info
+        # receiver is the estimator at the position the mask compares with (same enumerate, or list[k])
+        elist = _element_at(recv, kpos)
+        ok = elist is not None
         res.add(f, c, "the estimator object is the one enumerated together with the estimator index", ok,
                 "" if ok else f"receiver `{show(recv, 60)}` is not paired with the index used in the mask", construct=f"{f.name}: estimator pairing")
         # the map is the estimator-index map (parameter fed from *.function_estimators)
@@ -299,8 +325,19 @@ def _filter_loop_clauses(ctx: Ctx, res: RuleResult, f, c, lp, stores) -> None:
 
     X = ctx.X
     # (a) the condition under which get_realization_weights runs in an iteration
+    raw = list(path_condition(ctx, f, c))
+
+    def strip_not(t, pol):
+        while t[0] == "unary" and t[1] == "not":
+            t, pol = t[2], not pol
+        return t, pol
+
+    raw = [strip_not(t, pol) for t, pol in raw]
+    # `if not any(table): return` before the loop, `if table[k]:` inside it: the first is implied by the second
+    tables = [t[1] for t, pol in raw if pol and t[0] == "sub"]
+    raw = [(t, pol) for t, pol in raw if not (pol and t[0] == "call" and t[1] in (("builtin", "any"), ("global", "numpy.any")) and t[2] and t[2][0] in tables)]
     pc = []
-    for t, pol in path_condition(ctx, f, c):
+    for t, pol in raw:
         pc.append(t if pol else ("unary", "not", t))
     conj = []
     for t in pc:
